@@ -94,6 +94,56 @@ pub struct PragProblem {
 }
 
 impl PragProblem {
+    /// The same problem with geo coordinates instead of index references and WITHOUT matrices (the reader then builds
+    /// its approximation): one grid unit is about one metre, profile speed 1 m/s so that times stay comparable.
+    pub fn to_coordinates(&self, grid: &[(i64, i64)]) -> Option<PragProblem> {
+        if grid.is_empty() {
+            return None;
+        }
+        fn walk(v: &mut Value, grid: &[(i64, i64)]) {
+            match v {
+                Value::Object(m) => {
+                    if let Some(i) = m.get("index").and_then(|i| i.as_u64()) {
+                        if m.len() == 1 {
+                            let (x, y) = grid[i as usize];
+                            // six decimals: parsed identically by every JSON reader
+                            let lat = ((52.0 + y as f64 * 9.0e-6) * 1e6).round() / 1e6;
+                            let lng = ((13.0 + x as f64 * 1.46e-5) * 1e6).round() / 1e6;
+                            m.clear();
+                            m.insert("lat".into(), json!(lat));
+                            m.insert("lng".into(), json!(lng));
+                            return;
+                        }
+                    }
+                    m.values_mut().for_each(|x| walk(x, grid));
+                }
+                Value::Array(a) => a.iter_mut().for_each(|x| walk(x, grid)),
+                _ => {}
+            }
+        }
+        // distinct grid points may collapse to one coordinate after rounding: then index semantics would change
+        let mut seen = std::collections::HashSet::new();
+        for (x, y) in grid.iter() {
+            let key = (((52.0 + *y as f64 * 9.0e-6) * 1e6).round() as i64, ((13.0 + *x as f64 * 1.46e-5) * 1e6).round() as i64);
+            seen.insert(key);
+        }
+        let distinct_points: std::collections::HashSet<_> = grid.iter().collect();
+        if seen.len() != distinct_points.len() {
+            return None;
+        }
+        let mut problem = self.problem.clone();
+        walk(&mut problem, grid);
+        for p in problem["fleet"]["profiles"].as_array_mut().into_iter().flatten() {
+            p["speed"] = json!(1.0);
+        }
+        let mut features = self.features.clone();
+        for f in ["asymmetric", "unreachable", "unreachable-pair"] {
+            features.remove(f);
+        }
+        features.insert("coordinates".into());
+        Some(PragProblem { problem, matrices: vec![], features, ..self.clone() })
+    }
+
     pub fn problem_text(&self) -> String {
         serde_json::to_string(&self.problem).unwrap()
     }
@@ -177,6 +227,11 @@ fn loc_json(idx: usize) -> Value {
 /// Generates a valid problem. The generator never emits something the documentation calls invalid;
 /// the C10 reference validator is additionally applied by the callers that need a guarantee.
 pub fn generate(rng: &mut Rng, cfg: &GenCfg) -> PragProblem {
+    generate_with_grid(rng, cfg).0
+}
+
+/// As `generate`, additionally returning the grid point of every dense location index (for `to_coordinates`).
+pub fn generate_with_grid(rng: &mut Rng, cfg: &GenCfg) -> (PragProblem, Vec<(i64, i64)>) {
     let mut features = BTreeSet::new();
     let n_jobs = rng.range_usize(cfg.min_jobs, cfg.max_jobs.max(cfg.min_jobs));
     let dims = if rng.chance(cfg.p_multi_dim) { rng.range_usize(2, 3) } else { 1 };
@@ -710,7 +765,8 @@ pub fn generate(rng: &mut Rng, cfg: &GenCfg) -> PragProblem {
         matrices.push(Value::Object(m));
     }
 
-    PragProblem { problem: Value::Object(problem), matrices, features, jobs: n_jobs, vehicles: n_vehicles, locations: n_loc }
+    let grid: Vec<(i64, i64)> = geo.used.iter().map(|raw| geo.pts[*raw]).collect();
+    (PragProblem { problem: Value::Object(problem), matrices, features, jobs: n_jobs, vehicles: n_vehicles, locations: n_loc }, grid)
 }
 
 fn collect_indices(v: &Value, out: &mut BTreeSet<usize>) {
